@@ -237,7 +237,8 @@ def cid(log):
     for e in log:
         if e["k"] == "pkt" and e.get("scid") and e["ep"] not in first and e["type"] in ("initial", "handshake"):
             first[e["ep"]] = e["scid"]
-    out = [{"ev": "init", "cid0_c": first.get("c", 0), "cid0_s": first.get("s", 0)}]
+    cl = (next((e["cfg"] for e in log if e["k"] == "cfg"), {}).get("cid_limit") or {})
+    out = [{"ev": "init", "cid0_c": first.get("c", 0), "cid0_s": first.get("s", 0), "lim_c": cl.get("c", 8), "lim_s": cl.get("s", 8)}]
     closed = set()
     for e in log:
         k = e["k"]
